@@ -155,6 +155,9 @@ fn targets() -> Vec<Shape> {
         Shape::Int(IntK::U16),
         Shape::Struct(vec![("a".into(), Shape::Int(IntK::U32)), ("b".into(), Shape::U8), ("c".into(), Shape::Str)]),
         Shape::Seq(Box::new(Shape::Int(IntK::I16))),
+        // types whose encoding is empty: a bare sentinel and the frame [01 00] both deliver a value
+        Shape::Unit,
+        Shape::Tuple(vec![Shape::Unit, Shape::UnitStruct]),
     ]
 }
 fn piece(r: &mut StdRng, shape: &Shape, cap: usize) -> Vec<u8> {
